@@ -26,6 +26,7 @@ FIRST_ADDR = 3
 truthy = z3.Function("truthy", Int, Bool)  # truth value of an arbitrary python object
 exc_sub = z3.Function("exc_sub", Int, Int, Bool)  # issubclass(type(exc), cls) on class codes
 
+STR_REF = z3.Function("STR_REF", Str, Int)
 _fresh_counter = itertools.count()
 
 
@@ -177,6 +178,8 @@ def ref_of(v: V):
         return boxb(v.e)
     if isinstance(v, I):
         return v.e
+    if isinstance(v, S):
+        return STR_REF(v.e)  # a str object stored in a container: an injective image of its value
     raise Unsupported(f"no reference form for {type(v).__name__}")
 
 
@@ -234,6 +237,9 @@ HEAP_SORTS: Dict[str, Any] = {
     "iter.len": A_II,
     "Lock.locked": A_IB,
     "ghost.alloc": Int,
+    "ghost.ylog": A_II,  # values yielded by the generator under check, in order
+    "ghost.ny": Int,
+    "ghost.nwarn": Int,  # warnings.warn calls
 }
 
 
